@@ -17,3 +17,14 @@ def register(add):
         defines=['VC_CTX_RAND', 'VC_GEN_MAX=65536'], decls='bn_st *a; int sign; size_t bits;', call='bn_rand(a, sign, bits)',
         replace=['bn_grow', 'rand_bytes/rand_bytes_frame', 'bn_trim'], unwind=40, conf='base', route='proof', timeout=600,
         bound_note='loop-free after callee replacement; value-spec loops run RLC_BN_SIZE+2 times')
+
+    add('bn_rand_mod', ['C15'], 'bn_rand_mod', sources=['src/bn/relic_bn_util.c', 'src/bn/relic_bn_mem.c'], headers=['rand.h', 'bn_low.h', 'bn_api.h', 'bn_rand.h'],
+        defines=['VC_CTX_RAND', 'VC_GEN_MAX=65536'], decls='bn_st *a, *b;', call='bn_rand_mod(a, b)', loops=True,
+        replace=['bn_copy', 'bn_rand/bn_rand_frame', 'bn_mod_basic/bn_mod_basic_abs', 'bn_sign', 'bn_bits', 'bn_is_zero', 'bn_cmp_abs', 'bn_trim', 'bn_grow'],
+        unwind=40, conf='base', route='proof', timeout=900, flags=['--object-bits', '9'],
+        note='bn_mod_basic is an ASSUMED contract (division not verified); bn_copy/bn_bits/bn_is_zero/bn_cmp_abs contracts are enforced at the 8-bit configuration',
+        bound_note='rejection loop closed by a loop contract (no decreases clause: termination is probabilistic)')
+
+    add('rand_seed', ['C15', 'C08'], 'rand_seed', defines=['VC_CTX_RAND', 'VC_RAND_STATICS'], decls='uint8_t *buf; size_t n;', call='rand_seed(buf, n)',
+        replace=['md_map_sh256/md_map_sh256_frame'], unwind=60, timeout=900, flags=['--object-bits', '9'], sources_extra=['src/relic_util.c'],
+        **dict(base, route='bounded', bound_note='seed length <= 40 bytes; hash_df loops unwound completely; hash abstract (frame only)'))
